@@ -136,4 +136,27 @@ theorem stmtsOk_reads : ∀ (stmts : List Statement) (known : List Nat), stmtsOk
       · exact Or.inl (Or.inl h1)
       · exact Or.inr h1
 
+theorem retsOk_get {reach : List Bool} :
+    ∀ (blocks : List BasicBlock) (off : Nat), retsOk reach off blocks = true →
+      ∀ (k : Nat) (b : BasicBlock), blocks[k]? = some b → reach.getD (off + k) false = true →
+        b.terminator ≠ some (.ret .void) := by
+  intro blocks
+  induction blocks with
+  | nil => intro off _ k b h; simp at h
+  | cons x rest ih =>
+    intro off h k b hk hr
+    simp only [retsOk, Bool.and_eq_true] at h
+    cases k with
+    | zero =>
+      simp at hk; subst hk
+      simp only [Nat.add_zero] at hr
+      have h1 := h.1
+      simp only [hr, if_true] at h1
+      intro he
+      simp [he] at h1
+    | succ k =>
+      simp at hk
+      rw [show off + (k + 1) = off + 1 + k by omega] at hr
+      exact ih (off + 1) h.2 k b hk hr
+
 end QV.Proofs.Cfg
